@@ -37,6 +37,7 @@ from harness.c02 import make_grid, gen_grid, AXES, DIM
 
 PID = "C04"
 LEVEL = "proof"
+EXTRA_PROP_FILES = ["C04Proc"]  # the process of several objects (procRun), PDE._cache / solve
 REQUIRED_THEOREMS = [
     "cache_sound_of_faithful", "cache_unsound_of_collision", "events_sound_of_faithful",
     "bc_key_faithful", "bc_key_collision_dirichlet_neumann_old",
@@ -47,6 +48,7 @@ REQUIRED_THEOREMS = [
     "cache_sound_of_faithful_on", "events_sound_of_faithful_on", "grid_obs_of_key_eq", "arg_obs_of_key_eq",
     "kwargs_obs_of_key_eq", "opreq_obs_of_key_eq", "make_operator_cache_sound", "make_operator_events_sound",
     "kwargs_method_cache_sound",
+    "proc_sound_of_faithful_on", "proc_object_independent", "process_cache_sound", "solve_history_independent",
     "registry_cache_sound_by_info", "registry_cache_stale_by_name", "served_of_faithful_key", "pde_operator_table_faithful",
     "pde_operator_table_order_independent", "pde_bc_per_variable", "pde_shared_table_serves_first", "pde_shared_operator_table_unsound",
 ]
@@ -767,6 +769,49 @@ def gen_deco_case(rng, hist):
     return {"kind": "deco", "cap": cap, "ignore": ignore, "extra": extra, "events": events}
 
 
+# ---- processes: several objects, each with its own cache dictionary (model `procRun`) ---------------------------
+def gen_proc_case(rng, hist):
+    """the decorator histories on SEVERAL toy instances: every event names its object; invalidations hit one object"""
+    c = gen_deco_case(rng, lambda *a, **k: None)
+    nobj = rng.choice([2, 2, 3, 4])
+    evs = c["events"]
+    if not c["extra"]:  # twice as long (the second half has no `set` events either)
+        evs = evs + gen_deco_case(rng, lambda *a, **k: None)["events"]
+        evs = [e for e in evs if e["ev"] != "set"]
+    for e in evs:
+        if e["ev"] != "set":
+            e["obj"] = rng.randrange(nobj)
+    hist("proc", f"objects={nobj} cap={c['cap']} extra={len(c['extra'])}")
+    return {"kind": "proc", "cap": c["cap"], "ignore": c["ignore"], "extra": c["extra"], "nobj": nobj, "events": evs}
+
+
+PDESLOT_EXPRS = ["laplace(c) - c", "-2 * c", "laplace(c)", "c - c**3"]
+PDESLOT_STATES = [{"grid": ["unit", 4]}, {"grid": ["unit", 4]}, {"grid": ["unit", 5]}, {"grid": ["cart", 4]}, {"grid": ["unitp", 4]},
+                  {"grid": ["unit", 4], "dtype": "complex"}, {"grid": ["unit", 4], "label": "x"}, {"grid": ["unit", 5], "label": "x"}]
+
+
+def gen_pdeslot_case(rng, hist):
+    """histories of `evolution_rate` / `make_pde_rhs` / `solve` requests on one or two PDE objects for states whose
+    attributes coincide or differ in one respect (equal grid object, other size, other class, periodicity, dtype, label),
+    on both backends, with the manual reset `eq._cache = {}` in between: which request prepares `PDE._cache` anew"""
+    nobj = rng.choice([1, 2, 2])
+    exprs = [rng.choice(PDESLOT_EXPRS) for _ in range(nobj)]
+    states = rng.sample(PDESLOT_STATES, rng.choice([2, 3, 4]))
+    events = []
+    for _ in range(rng.randint(3, 9)):
+        if rng.random() < 0.07:
+            events.append({"ev": "drop", "obj": rng.randrange(nobj)})
+            continue
+        via = rng.choice(["rate", "rhs", "rhs", "solve"])
+        backend = "numpy" if via == "rate" else rng.choice(["numpy", "numba"])
+        events.append({"ev": "call", "obj": rng.randrange(nobj), "via": via, "backend": backend, "state": rng.randrange(len(states))})
+    hist("pdeslot", f"objects={nobj} states={len(states)}")
+    for e in events:
+        if e["ev"] == "call":
+            hist("pdeslot:query", f"{e['via']}:{e['backend']}")
+    return {"kind": "pdeslot", "exprs": exprs, "states": states, "events": events}
+
+
 # ==========================================================================================
 # PAIRS: real code (worker side)
 def wrapper_key(args, kwargs):
@@ -1208,6 +1253,109 @@ def real_deco(case):
     return {"answers": answers, "events": events}
 
 
+def real_proc(case):
+    """several instances of a toy class through the real decorator; for every call the index of the compute whose result
+    it got (every instance has its own `_cache_methods`)"""
+    from pde.tools.cache import cached_method, DictFiniteCapacity
+    from harness.common import pygraph as G
+    cap, ignore, extra = case["cap"], case["ignore"], case["extra"]
+    counter = [0]
+    kwd = {}
+    if ignore:
+        kwd["ignore_args"] = ignore
+    if extra:
+        kwd["extra_args"] = extra
+    if cap is not None:
+        kwd["factory"] = "get_cache"
+
+    class Toy:
+        def __init__(self):
+            self.scale = 1
+            self.mode = "m"
+
+        def get_cache(self, name):
+            return DictFiniteCapacity(capacity=cap)
+
+        @cached_method(**kwd)
+        def f(self, *args, **kwargs):
+            return counter[0]
+
+        @cached_method(**kwd)
+        def g(self, *args, **kwargs):
+            return counter[0]
+
+    ts = [Toy() for _ in range(case["nobj"])]
+    answers, events = [], []
+    for i, e in enumerate(case["events"]):
+        counter[0] = i
+        if e["ev"] == "drop":
+            ts[e["obj"]].__dict__.pop("_cache_methods", None)
+            events.append({"ev": "drop", "obj": e["obj"]})
+        elif e["ev"] == "set":
+            for t in ts:
+                setattr(t, e["attr"], dec(e["value"]))
+            events.append({"ev": "nop"})
+        else:
+            t = ts[e["obj"]]
+            args = tuple(dec(x) for x in e["args"])
+            kw = {k: dec(v) for k, v in e["kwargs"]}
+            answers.append(getattr(t, e["name"])(*args, **kw))
+            events.append({"ev": "call", "obj": e["obj"], "name": e["name"], "args": [G.ser(x) for x in args],
+                           "kwargs": [[k, G.ser(v)] for k, v in kw.items()],
+                           "extra": [G.ser(getattr(t, a)) for a in extra]})
+    return {"answers": answers, "events": events}
+
+
+def pdeslot_state(spec, k):
+    import numpy as np
+    from pde import ScalarField, UnitGrid, CartesianGrid
+    kind, n = spec["grid"]
+    grid = {"unit": lambda: UnitGrid([n]), "unitp": lambda: UnitGrid([n], periodic=True),
+            "cart": lambda: CartesianGrid([[0, n]], n)}[kind]()
+    data = np.cos(1.0 + k + np.arange(n)) + (1j * np.sin(np.arange(n) + k) if spec.get("dtype") == "complex" else 0)
+    return ScalarField(grid, data, label=spec.get("label"), dtype=complex if spec.get("dtype") == "complex" else None)
+
+
+def pdeslot_call(eq, e, st):
+    import numpy as np
+    if e["via"] == "rate":
+        return np.array(eq.evolution_rate(st.copy(), 0.5).data)
+    if e["via"] == "rhs":
+        return np.array(eq.make_pde_rhs(st.copy(), backend=e["backend"])(st.data.copy(), 0.5))
+    return np.array(eq.solve(st.copy(), t_range=0.02, dt=0.01, backend=e["backend"], tracker=None, solver="euler").data)
+
+
+def real_pdeslot(case):
+    """real PDE objects: which request prepared the slot of `PDE._cache` a request used (a token is left in the slot
+    dictionary the first time it is seen), the equivalence class of the state attributes under the real `==`, and the
+    monitor: every result equals the result of the same request to a NEW PDE object"""
+    import numpy as np
+    from pde import PDE
+    eqs = [PDE({"c": x}) for x in case["exprs"]]
+    states = [pdeslot_state(sp, k) for k, sp in enumerate(case["states"])]
+    classes, answers, events, bad = [], [], [], []
+    for i, e in enumerate(case["events"]):
+        if e["ev"] == "drop":
+            eqs[e["obj"]]._cache = {}
+            events.append({"ev": "drop", "obj": e["obj"]})
+            continue
+        st, eq = states[e["state"]], eqs[e["obj"]]
+        attrs = st.attributes
+        for ci, a in enumerate(classes):
+            if a == attrs:
+                break
+        else:
+            classes.append(attrs)
+            ci = len(classes) - 1
+        res = pdeslot_call(eq, e, st)
+        answers.append(eq._cache[e["backend"]].setdefault("_verif_prepared_by", i))
+        events.append({"ev": "call", "obj": e["obj"], "name": e["backend"], "cls": ci})
+        ref = pdeslot_call(PDE({"c": case["exprs"][e["obj"]]}), e, st)
+        if res.shape != ref.shape or res.dtype != ref.dtype or not np.all(np.abs(res - ref) <= 1e-12 * (1 + np.abs(ref))):
+            bad.append({"event": i, "observed": repr(res.tolist())[:300], "new_pde_object": repr(ref.tolist())[:300]})
+    return {"answers": answers, "events": events, "bad": bad}
+
+
 def pair_worker(case):
     return pair_worker_inner(case)
 
@@ -1242,6 +1390,10 @@ def pair_worker_inner(case):
         return real_nobc_pair(case)
     if k == "deco":
         return real_deco(case)
+    if k == "proc":
+        return real_proc(case)
+    if k == "pdeslot":
+        return real_pdeslot(case)
     if k in ("bcobj", "gridobj"):
         return real_obj_pair(case)
     raise ValueError(k)
@@ -1284,6 +1436,8 @@ def run_pairs(ctx, batch):
     cases += [gen_interp_pair(rng, ctx.hist) for _ in range(n_interp)]
     cases += [gen_nobc_pair(rng, ctx.hist) for _ in range(n_nobc)]
     cases += [gen_deco_case(rng, ctx.hist) for _ in range(n_deco)]
+    cases += [gen_proc_case(rng, ctx.hist) for _ in range(ctx.budget(200, 2000))]
+    cases += [gen_pdeslot_case(rng, ctx.hist) for _ in range(ctx.budget(120, 1200))] + fixed_pdeslot()
     # regression pairs that must always be present
     cases += fixed_pairs()
     order = list(range(len(cases)))
@@ -1304,6 +1458,11 @@ def run_pairs(ctx, batch):
         if k == "deco":
             req = batch.add("c04.replay_cache", {"cap": case["cap"], "ignore": {"f": case["ignore"], "g": case["ignore"]},
                                                  "events": res["events"]})
+        elif k == "proc":
+            req = batch.add("c04.replay_proc", {"cap": case["cap"], "ignore": {"f": case["ignore"], "g": case["ignore"]},
+                                                "events": res["events"]})
+        elif k == "pdeslot":
+            req = batch.add("c04.replay_proc", {"slot": True, "events": res["events"]})
         elif "ga" in res:
             if k in ("req", "bcobj", "gridobj") and res.get("sa") and res.get("sb"):
                 req = batch.add("c04.speceq", {"kind": {"req": "req", "bcobj": "bc", "gridobj": "grid"}[k], "a": res["sa"], "b": res["sb"],
@@ -1375,6 +1534,17 @@ def fixed_pairs():
     return out
 
 
+def fixed_pdeslot():
+    """always present: equal attributes share the slot, another grid / dtype / label evicts it, the other backend and the
+    other PDE object have their own"""
+    st = [{"grid": ["unit", 4]}, {"grid": ["unit", 4]}, {"grid": ["unit", 5]}, {"grid": ["unit", 4], "dtype": "complex"}]
+    c = lambda o, via, b, s_: {"ev": "call", "obj": o, "via": via, "backend": b, "state": s_}
+    return [{"kind": "pdeslot", "exprs": ["laplace(c) - c", "-2 * c"], "states": st,
+             "events": [c(0, "rate", "numpy", 0), c(0, "rhs", "numpy", 1), c(0, "solve", "numba", 0), c(1, "solve", "numpy", 0),
+                        c(0, "solve", "numpy", 2), c(0, "rate", "numpy", 0), c(0, "rhs", "numba", 1), c(0, "rhs", "numba", 3),
+                        {"ev": "drop", "obj": 1}, c(1, "rate", "numpy", 0), c(0, "solve", "numba", 3)]}]
+
+
 def judge_pairs(ctx, pending, answers):
     for case, res, req, lh in pending:
         k = case["kind"]
@@ -1390,6 +1560,21 @@ def judge_pairs(ctx, pending, answers):
             st, val = answers[req]
             if st != "ok" or list(val) != list(res["answers"]):
                 ctx.disagree("decorator", cj, val, res["answers"], "hit/miss pattern of _class_cache vs runEvents")
+            continue
+        if k in ("proc", "pdeslot"):
+            ctx.count(cj, nontrivial=len(set(res["answers"])) < len(res["answers"]) and len(set(res["answers"])) > 1, leg=leg)
+            ctx.impl_traces += 1
+            st, val = answers[req]
+            if st != "ok" or list(val) != list(res["answers"]):
+                ctx.disagree("process" if k == "proc" else "pde-slot", cj, val, res["answers"],
+                             "which compute every call returns: the real caches of several objects vs procRun"
+                             if k == "proc" else "which request prepared the slot of PDE._cache every request used vs procRun (one slot per backend)")
+            if k == "pdeslot":
+                ctx.monitor_evals += len(res["answers"])
+                for b in res["bad"]:
+                    ctx.monitor_fail(leg, cj, dict(b, symptom="pdeslot_differs"), {"same_as_new_pde_object": True},
+                                     "a request to a PDE object that was asked before differs from the same request to a new PDE object",
+                                     key=dict(GENERIC_KEY, call_site="PDE._prepare_cache"))
             continue
         if "hash_eq" not in res:
             ctx.hist("malformed", res.get("error", "?"))
@@ -3859,6 +4044,13 @@ def replay(ctx, rep):
             return False
         print(json.dumps(res, default=str)[:2000])
         return not res.get("heap_dep")
+    if case.get("kind") == "pdeslot":
+        res = _iso("pair_worker_forked", case, False)
+        if isinstance(res, str):
+            print("worker exception:", res[-600:])
+            return False
+        print(json.dumps({"slot_prepared_by": res["answers"], "requests_differing_from_a_new_pde_object": res["bad"]}, default=str)[:2000])
+        return not res["bad"]
     if case.get("kind") in ("req", "interp", "nobc"):
         res = _iso("pair_worker_forked", case, False)
         if isinstance(res, str):
